@@ -9288,178 +9288,188 @@ class SVG(Group):
                     and values[SVG_ATTR_DISPLAY].lower() == SVG_VALUE_NONE
                 ):
                     continue  # If the attributes flag our values to display=none, stop rendering.
-                if SVG_NAME_TAG == tag:
-                    # The ordering for transformations on the SVG object are:
-                    # explicit transform, parent transforms, attribute transforms, viewport transforms
-                    s = SVG(values)
+                try:
+                    if SVG_NAME_TAG == tag:
+                        # The ordering for transformations on the SVG object are:
+                        # explicit transform, parent transforms, attribute transforms, viewport transforms
+                        s = SVG(values)
 
-                    if width is None:
-                        # If a dim was not provided but a viewbox was, use the viewbox dim as physical size, else 1000
-                        width = (
-                            s.viewbox.width if s.viewbox is not None else 1000
-                        )  # 1000 default no information.
-                    if height is None:
-                        height = s.viewbox.height if s.viewbox is not None else 1000
+                        if width is None:
+                            # If a dim was not provided but a viewbox was, use the viewbox dim as physical size, else 1000
+                            width = (
+                                s.viewbox.width if s.viewbox is not None else 1000
+                            )  # 1000 default no information.
+                        if height is None:
+                            height = s.viewbox.height if s.viewbox is not None else 1000
 
-                    s.render(ppi=ppi, width=width, height=height, viewbox=s.viewbox)
-                    width, height = s.width, s.height
-                    if s.viewbox is not None:
-                        try:
-                            if s.height == 0 or s.width == 0:
-                                raise ZeroDivisionError
-                            viewport_transform = s.viewbox_transform
-                        except ZeroDivisionError:
-                            # The width or height was zero.
-                            # https://www.w3.org/TR/SVG11/struct.html#SVGElementWidthAttribute
-                            # "A value of zero disables rendering of the element."
-                            if context is None:
-                                return s  # The document itself is not rendered.
-                            # Only this nested svg is disabled, the rest of the document is still parsed.
-                            values[SVG_ATTR_DISPLAY] = SVG_VALUE_NONE
-                            continue
+                        s.render(ppi=ppi, width=width, height=height, viewbox=s.viewbox)
+                        width, height = s.width, s.height
+                        if s.viewbox is not None:
+                            try:
+                                if s.height == 0 or s.width == 0:
+                                    raise ZeroDivisionError
+                                viewport_transform = s.viewbox_transform
+                            except ZeroDivisionError:
+                                # The width or height was zero.
+                                # https://www.w3.org/TR/SVG11/struct.html#SVGElementWidthAttribute
+                                # "A value of zero disables rendering of the element."
+                                if context is None:
+                                    return s  # The document itself is not rendered.
+                                # Only this nested svg is disabled, the rest of the document is still parsed.
+                                values[SVG_ATTR_DISPLAY] = SVG_VALUE_NONE
+                                continue
 
-                        if SVG_ATTR_TRANSFORM in values:
-                            # transform on SVG element applied as if svg had parent with transform.
-                            values[SVG_ATTR_TRANSFORM] += " " + viewport_transform
-                        else:
-                            values[SVG_ATTR_TRANSFORM] = viewport_transform
-                        values["viewport_transform"] = values[SVG_ATTR_TRANSFORM]
-                        width, height = s.viewbox.width, s.viewbox.height
-                    elif context is not None and (s.x != 0 or s.y != 0):
-                        # A nested svg without a viewBox still establishes its viewport at (x, y).
-                        viewport_transform = "translate(%s, %s)" % (
-                            Length.str(s.x),
-                            Length.str(s.y),
-                        )
-                        if SVG_ATTR_TRANSFORM in values:
-                            values[SVG_ATTR_TRANSFORM] += " " + viewport_transform
-                        else:
-                            values[SVG_ATTR_TRANSFORM] = viewport_transform
-                    # The position and size of an svg element are not inherited by its children.
-                    for attr in (
-                        SVG_ATTR_X,
-                        SVG_ATTR_Y,
-                        SVG_ATTR_WIDTH,
-                        SVG_ATTR_HEIGHT,
-                    ):
-                        if attr in values:
-                            del values[attr]
-                    if context is None:
-                        stack[-1] = (context, values, width, height)
-                    if context is not None:
-                        context.append(s)
-                    context = s
-                elif SVG_TAG_GROUP == tag:
-                    s = Group(values)
-                    if context is not None:
-                        context.append(s)
-                    context = s
-                    s.render(ppi=ppi, width=width, height=height)
-                elif SVG_TAG_DEFS == tag:
-                    s = Group(values)
-                    context = s  # Non-Rendered
-                    s.render(ppi=ppi, width=width, height=height)
-                elif SVG_TAG_CLIPPATH == tag:
-                    s = ClipPath(values)
-                    context = s  # Non-Rendered
-                    s.render(ppi=ppi, width=width, height=height)
-                    clip += 1
-                elif SVG_TAG_USE == tag:
-                    # x and y become a translate: resolve units and percentages against this viewport first.
-                    for attr, relative in (
-                        (SVG_ATTR_X, width),
-                        (SVG_ATTR_Y, height),
-                    ):
-                        if attr in values:
-                            values[attr] = Length(values[attr]).value(
-                                ppi=ppi, relative_length=relative
+                            if SVG_ATTR_TRANSFORM in values:
+                                # transform on SVG element applied as if svg had parent with transform.
+                                values[SVG_ATTR_TRANSFORM] += " " + viewport_transform
+                            else:
+                                values[SVG_ATTR_TRANSFORM] = viewport_transform
+                            values["viewport_transform"] = values[SVG_ATTR_TRANSFORM]
+                            width, height = s.viewbox.width, s.viewbox.height
+                        elif context is not None and (s.x != 0 or s.y != 0):
+                            # A nested svg without a viewBox still establishes its viewport at (x, y).
+                            viewport_transform = "translate(%s, %s)" % (
+                                Length.str(s.x),
+                                Length.str(s.y),
                             )
-                    s = Use(values)
-                    if SVG_ATTR_TRANSFORM in s.values:
-                        # Update value in case x or y applied.
-                        values[SVG_ATTR_TRANSFORM] = s.values[SVG_ATTR_TRANSFORM]
-                    if SVG_ATTR_X in values:
-                        del values[SVG_ATTR_X]
-                    if SVG_ATTR_Y in values:
-                        del values[SVG_ATTR_Y]
-                    if SVG_ATTR_WIDTH in values:
-                        del values[SVG_ATTR_WIDTH]
-                    if SVG_ATTR_HEIGHT in values:
-                        del values[SVG_ATTR_HEIGHT]
-                    if context is not None:
-                        context.append(s)
-                    context = s
-                    use += 1
-                    if SVG_ATTR_ID in attributes and root is not None and use == 1:
-                        root.objects[attributes[SVG_ATTR_ID]] = s
-                elif SVG_TAG_PATTERN == tag:
-                    s = Pattern(values)
-                    context = s  # Non-rendered
-                    s.render(ppi=ppi, width=width, height=height)
-                elif tag in (
-                    SVG_TAG_PATH,
-                    SVG_TAG_CIRCLE,
-                    SVG_TAG_ELLIPSE,
-                    SVG_TAG_LINE,  # Shapes
-                    SVG_TAG_POLYLINE,
-                    SVG_TAG_POLYGON,
-                    SVG_TAG_RECT,
-                    SVG_TAG_IMAGE,
-                ):
-                    parse_error = None
-                    s = None
-                    try:
-                        if SVG_TAG_PATH == tag:
-                            # Delayed path parsing, for partial paths.
-                            s = Path(values, pathd_loaded=True)
-                            s.parse(values.get(SVG_ATTR_DATA, ""))
-                        elif SVG_TAG_CIRCLE == tag:
-                            s = Circle(values)
-                        elif SVG_TAG_ELLIPSE == tag:
-                            s = Ellipse(values)
-                        elif SVG_TAG_LINE == tag:
-                            s = SimpleLine(values)
-                        elif SVG_TAG_POLYLINE == tag:
-                            s = Polyline(values)
-                        elif SVG_TAG_POLYGON == tag:
-                            s = Polygon(values)
-                        elif SVG_TAG_RECT == tag:
-                            s = Rect(values)
-                        else:  # SVG_TAG_IMAGE == tag:
-                            s = Image(values)
-                    except ValueError as e:
-                        parse_error = e
-                        if s is None:
-                            # s was not established we continue without it.
+                            if SVG_ATTR_TRANSFORM in values:
+                                values[SVG_ATTR_TRANSFORM] += " " + viewport_transform
+                            else:
+                                values[SVG_ATTR_TRANSFORM] = viewport_transform
+                        # The position and size of an svg element are not inherited by its children.
+                        for attr in (
+                            SVG_ATTR_X,
+                            SVG_ATTR_Y,
+                            SVG_ATTR_WIDTH,
+                            SVG_ATTR_HEIGHT,
+                        ):
+                            if attr in values:
+                                del values[attr]
+                        if context is None:
+                            stack[-1] = (context, values, width, height)
+                        if context is not None:
+                            context.append(s)
+                        context = s
+                    elif SVG_TAG_GROUP == tag:
+                        s = Group(values)
+                        if context is not None:
+                            context.append(s)
+                        context = s
+                        s.render(ppi=ppi, width=width, height=height)
+                    elif SVG_TAG_DEFS == tag:
+                        s = Group(values)
+                        context = s  # Non-Rendered
+                        s.render(ppi=ppi, width=width, height=height)
+                    elif SVG_TAG_CLIPPATH == tag:
+                        s = ClipPath(values)
+                        context = s  # Non-Rendered
+                        s.render(ppi=ppi, width=width, height=height)
+                        clip += 1
+                    elif SVG_TAG_USE == tag:
+                        # x and y become a translate: resolve units and percentages against this viewport first.
+                        for attr, relative in (
+                            (SVG_ATTR_X, width),
+                            (SVG_ATTR_Y, height),
+                        ):
+                            if attr in values:
+                                values[attr] = Length(values[attr]).value(
+                                    ppi=ppi, relative_length=relative
+                                )
+                        s = Use(values)
+                        if SVG_ATTR_TRANSFORM in s.values:
+                            # Update value in case x or y applied.
+                            values[SVG_ATTR_TRANSFORM] = s.values[SVG_ATTR_TRANSFORM]
+                        if SVG_ATTR_X in values:
+                            del values[SVG_ATTR_X]
+                        if SVG_ATTR_Y in values:
+                            del values[SVG_ATTR_Y]
+                        if SVG_ATTR_WIDTH in values:
+                            del values[SVG_ATTR_WIDTH]
+                        if SVG_ATTR_HEIGHT in values:
+                            del values[SVG_ATTR_HEIGHT]
+                        if context is not None:
+                            context.append(s)
+                        context = s
+                        use += 1
+                        if SVG_ATTR_ID in attributes and root is not None and use == 1:
+                            root.objects[attributes[SVG_ATTR_ID]] = s
+                    elif SVG_TAG_PATTERN == tag:
+                        s = Pattern(values)
+                        context = s  # Non-rendered
+                        s.render(ppi=ppi, width=width, height=height)
+                    elif tag in (
+                        SVG_TAG_PATH,
+                        SVG_TAG_CIRCLE,
+                        SVG_TAG_ELLIPSE,
+                        SVG_TAG_LINE,  # Shapes
+                        SVG_TAG_POLYLINE,
+                        SVG_TAG_POLYGON,
+                        SVG_TAG_RECT,
+                        SVG_TAG_IMAGE,
+                    ):
+                        parse_error = None
+                        s = None
+                        try:
+                            if SVG_TAG_PATH == tag:
+                                # Delayed path parsing, for partial paths.
+                                s = Path(values, pathd_loaded=True)
+                                s.parse(values.get(SVG_ATTR_DATA, ""))
+                            elif SVG_TAG_CIRCLE == tag:
+                                s = Circle(values)
+                            elif SVG_TAG_ELLIPSE == tag:
+                                s = Ellipse(values)
+                            elif SVG_TAG_LINE == tag:
+                                s = SimpleLine(values)
+                            elif SVG_TAG_POLYLINE == tag:
+                                s = Polyline(values)
+                            elif SVG_TAG_POLYGON == tag:
+                                s = Polygon(values)
+                            elif SVG_TAG_RECT == tag:
+                                s = Rect(values)
+                            else:  # SVG_TAG_IMAGE == tag:
+                                s = Image(values)
+                        except ValueError as e:
+                            parse_error = e
+                            if s is None:
+                                # s was not established we continue without it.
+                                continue
+                        s.render(ppi=ppi, width=width, height=height)
+                        if reify:
+                            s.reify()
+                        if s.is_degenerate():
                             continue
-                    s.render(ppi=ppi, width=width, height=height)
-                    if reify:
-                        s.reify()
-                    if s.is_degenerate():
+                        if context is not None:
+                            context.append(s)
+                        if parse_error:
+                            # Error was encountered, but s was established and processed.
+                            if on_error == "ignore":
+                                continue
+                            elif on_error == "raise":
+                                raise parse_error
+                            else:  # "stop"
+                                return root
+                    elif tag in (
+                        SVG_TAG_STYLE,
+                        SVG_TAG_TEXT,
+                        SVG_TAG_DESC,
+                        SVG_TAG_TITLE,
+                        SVG_TAG_TSPAN,
+                    ):
+                        # <style>, <text>, <desc>, <title>
                         continue
-                    if context is not None:
-                        context.append(s)
-                    if parse_error:
-                        # Error was encountered, but s was established and processed.
-                        if on_error == "ignore":
-                            continue
-                        elif on_error == "raise":
-                            raise parse_error
-                        else:  # "stop"
-                            return root
-                elif tag in (
-                    SVG_TAG_STYLE,
-                    SVG_TAG_TEXT,
-                    SVG_TAG_DESC,
-                    SVG_TAG_TITLE,
-                    SVG_TAG_TSPAN,
-                ):
-                    # <style>, <text>, <desc>, <title>
+                    else:
+                        s = SVGElement(values)  # SVG Unknown object return as element.
+                        if context is not None:
+                            context.append(s)
+                except ValueError as e:
+                    # An attribute of this element could not be parsed.
+                    if on_error == "raise":
+                        raise e
+                    elif on_error == "stop":
+                        return root
+                    # The element is in error: it and its content are not rendered.
+                    values[SVG_ATTR_DISPLAY] = SVG_VALUE_NONE
                     continue
-                else:
-                    s = SVGElement(values)  # SVG Unknown object return as element.
-                    if context is not None:
-                        context.append(s)
                 # If no root was established, s is root.
                 if root is None:
                     root = s
